@@ -383,6 +383,31 @@ Definition object_eqb (a b : object) : bool :=
 
 Definition objs_eqb : list object -> list object -> bool := list_eqb object_eqb.
 
+(** ** What a returned object may look like (specification side)
+
+    "Reduced to VERSION plus the requested properties": for a card that has no
+    VERSION property - no binding of the key, or a binding to no field - the
+    reduced card denotes the same thing whether it binds VERSION to no field or
+    does not bind it.  [vnorm] identifies the two in the VERSION slot only; a
+    VERSION with values must be there with exactly those values, and every
+    other key is compared exactly. *)
+Definition vnorm (k : string) (v : option (list field)) : option (list field) :=
+  if String.eqb k version_key then match v with Some [] => None | _ => v end else v.
+
+Definition card_sim (a b : card) : bool :=
+  forallb (fun k => opt_fields_eqb (vnorm k (card_assoc k a)) (vnorm k (card_assoc k b)))
+          ((map fst a ++ map fst b)%list).
+
+Definition object_sim (a b : object) : bool :=
+  String.eqb (o_path a) (o_path b) && String.eqb (o_etag a) (o_etag b) &&
+  Z.eqb (o_mtime a) (o_mtime b) && card_sim (o_card a) (o_card b).
+
+(** a whole card is returned as it is; a reduced one up to the VERSION slot *)
+Definition result_eqb (r : data_request) : object -> object -> bool :=
+  if dr_whole r then object_eqb else object_sim.
+Definition results_eqb (r : data_request) : list object -> list object -> bool :=
+  list_eqb (result_eqb r).
+
 Definition obs_of_match (r : res bool) : mobs :=
   match r with Ok b => MOk b | Err _ => MErr | Panic => MPanic end.
 Definition obs_of_filter (r : res (list object)) : fobs :=
@@ -417,9 +442,12 @@ Definition opt_bool_eqb (a b : option bool) : bool :=
   end.
 
 (** [spec_ok_*]: the implementation's observation meets the specification:
-    a verdict only where the three-valued semantics is defined, and then that one;
-    an error only for a query carrying an unknown test or match type; never a
-    panic, never a modified argument. *)
+    a verdict only where the three-valued semantics is defined (it can be computed
+    without consulting an unknown test or match type), and then that one;
+    an error only - and always acceptably - for a query carrying an unknown test
+    or match type anywhere, reached by the evaluation or not ("reported as an
+    error, never guessed": the statement never demands a verdict for such a query);
+    never a panic, never a modified argument. *)
 Definition spec_ok_match (q : option query) (o : object) (ob : mobs) : bool :=
   match q with
   | None => mobs_eqb (MOk true) ob
@@ -431,30 +459,47 @@ Definition spec_ok_match (q : option query) (o : object) (ob : mobs) : bool :=
     end
   end.
 
+(** Filter: the list the lazy three-valued reading defines, each object compared
+    by [result_eqb] (whole card: exactly; reduced card: up to the VERSION slot of
+    a card without VERSION); or an error for a query carrying an unknown
+    attribute.  Defined for every object list, empty cards included (their
+    reduction binds nothing, or VERSION to no field). *)
 Definition spec_ok_filter (q : option query) (os : list object) (ob : fobs) : bool :=
   match q with
   | None => fobs_eqb (FOk os) ob
   | Some q =>
     match ob with
-    | FOk l => match spec_filter q os with Some e => objs_eqb e l | None => false end
+    | FOk l => match spec_filter q os with Some e => results_eqb (q_data q) e l | None => false end
     | FErr => negb (all_known_b q)
     | FPanic | FOther => false
     end
   end.
 
-(** the inputs the property quantifies over: an address object (not a nil
-    pointer); for Filter, objects filterProperties is defined on *)
+(** Match on a nil object: the statement speaks about address objects, so no
+    verdict is specified; reporting the unknown test or match type of the query
+    is acceptable there too. *)
+Definition spec_ok_match_nil (q : option query) (ob : mobs) : bool :=
+  match q, ob with
+  | Some q, MErr => negb (all_known_b q)
+  | _, _ => false
+  end.
+
+(** the inputs on which the unchanged code is proved to meet the specification
+    without a panic: an address object (not a nil pointer); for Filter, the whole
+    card requested or no empty card (filterProperties panics on an empty card) *)
 Definition in_domain_match (ao : option object) : bool :=
   match ao with Some _ => true | None => false end.
 Definition in_domain_filter (q : option query) (os : list object) : bool :=
   match q with None => true | Some q => safe_request_b q os end.
 
-(** what the oracle reports as "spec": inside the domain the specification,
-    outside it (where the property says nothing) the model's behaviour *)
+(** what the oracle reports as "spec": the specification on every input; outside
+    the domain above, where the unchanged code may panic, also the model's own
+    behaviour (the panic is pinned, and the correct non-panicking result is
+    accepted as well) *)
 Definition spec_verdict_match (q : option query) (ao : option object) (ob : mobs) : bool :=
   match ao with
   | Some o => spec_ok_match q o ob
-  | None => model_agrees_match q ao ob
+  | None => spec_ok_match_nil q ob || model_agrees_match q ao ob
   end.
 Definition spec_verdict_filter (q : option query) (os : list object) (ob : fobs) : bool :=
-  if in_domain_filter q os then spec_ok_filter q os ob else model_agrees_filter q os ob.
+  spec_ok_filter q os ob || (negb (in_domain_filter q os) && model_agrees_filter q os ob).
